@@ -106,3 +106,44 @@ package renamer
 //@   ensures recorded: inDom(s.nameCounts, result)
 //@   ensures never-forgets: forall k string :: old(inDom(s.nameCounts, k)) ==> inDom(s.nameCounts, k)
 //@   loop 0 invariant forall k string :: old(inDom(s.nameCounts, k)) ==> inDom(s.nameCounts, k)
+
+// C15: minified names are assigned per SLOT; two symbols may share a slot (hence a name) only if neither scope
+// encloses the other. assignNestedScopeSlotsHelper numbers the symbols of a scope from the counters it is given and
+// hands the advanced counters to its children, so: a symbol that already has a slot keeps it (labels excepted: a
+// label always gets the slot of the scope that declares it); every slot newly assigned in this subtree lies in
+// [counter on entry, counter returned) of its namespace; counters never go down. Hence a descendant's slots start
+// where its ancestors' end. (nsOf restates Symbol.SlotNamespace; the lemma below ties it to the real method.)
+//@ spec func nsOf(q *ast.Symbol) ast.SlotNamespace =
+//@     (q.Kind == ast.SymbolUnbound || q.Flags.Has(ast.MustNotBeRenamed)) ? ast.SlotMustNotBeRenamed :
+//@     (q.Kind.IsPrivate() ? ast.SlotPrivateName : (q.Kind == ast.SymbolLabel ? ast.SlotLabel : (q.Kind == ast.SymbolMangledProp ? ast.SlotMangledProp : ast.SlotDefault)))
+//@ lemma nsOf_is_SlotNamespace C15: forall q *ast.Symbol :: q != nil ==> q.SlotNamespace() == nsOf(q)
+//@ spec func slotKept(q *ast.Symbol) bool = q.Kind != ast.SymbolLabel && old(q.NestedScopeSlot.IsValid()) ==> q.NestedScopeSlot == old(q.NestedScopeSlot)
+
+//@ func assignNestedScopeSlotsHelper
+//@   arith int
+//@   nooverflow off
+//@   prop C15
+//@   requires scope != nil
+//@   ensures counts-only-grow: forall k int :: 0 <= k && k < 4 ==> result[k] >= slot[k]
+//@   ensures assigned-slots-are-kept: forall q *ast.Symbol :: q.Kind != ast.SymbolLabel && old(q.NestedScopeSlot.IsValid()) ==> q.NestedScopeSlot == old(q.NestedScopeSlot)
+//@   ensures new-slots-are-in-range: forall q *ast.Symbol :: q.Kind != ast.SymbolLabel && !old(q.NestedScopeSlot.IsValid()) && q.NestedScopeSlot.IsValid() ==>
+//@       nsOf(q) != ast.SlotMustNotBeRenamed && slot[nsOf(q)] <= q.NestedScopeSlot.GetIndex() && q.NestedScopeSlot.GetIndex() < result[nsOf(q)]
+//@   opt no-unsigned-wrap 1
+//@   requires forall sc *js_ast.Scope, j int :: 0 <= j && j < len(sc.Children) ==> sc.Children[j] != nil
+//@   requires forall sc *js_ast.Scope :: sc.Label.Ref != ast.InvalidRef ==> symbols[sc.Label.Ref.InnerIndex].Kind == ast.SymbolLabel
+//@   loop 1 invariant forall k int :: 0 <= k && k < 4 ==> slot[k] >= entry(slot)[k]
+//@   loop 1 invariant forall q *ast.Symbol :: q.Kind != ast.SymbolLabel && old(q.NestedScopeSlot.IsValid()) ==> q.NestedScopeSlot == old(q.NestedScopeSlot)
+//@   loop 1 invariant forall q *ast.Symbol :: q.Kind != ast.SymbolLabel && !old(q.NestedScopeSlot.IsValid()) && q.NestedScopeSlot.IsValid() ==>
+//@       nsOf(q) != ast.SlotMustNotBeRenamed && entry(slot)[nsOf(q)] <= q.NestedScopeSlot.GetIndex() && q.NestedScopeSlot.GetIndex() < slot[nsOf(q)]
+//@   loop 2 invariant forall k int :: 0 <= k && k < 4 ==> slot[k] >= entry(slot)[k]
+//@   loop 2 invariant forall q *ast.Symbol :: q.Kind != ast.SymbolLabel && old(q.NestedScopeSlot.IsValid()) ==> q.NestedScopeSlot == old(q.NestedScopeSlot)
+//@   loop 2 invariant forall q *ast.Symbol :: q.Kind != ast.SymbolLabel && !old(q.NestedScopeSlot.IsValid()) && q.NestedScopeSlot.IsValid() ==>
+//@       nsOf(q) != ast.SlotMustNotBeRenamed && entry(slot)[nsOf(q)] <= q.NestedScopeSlot.GetIndex() && q.NestedScopeSlot.GetIndex() < slot[nsOf(q)]
+//@   loop 3 invariant forall k int :: 0 <= k && k < 4 ==> slotCounts[k] >= slot[k] && slot[k] >= entry(slot)[k]
+//@   loop 3 invariant forall q *ast.Symbol :: q.Kind != ast.SymbolLabel && old(q.NestedScopeSlot.IsValid()) ==> q.NestedScopeSlot == old(q.NestedScopeSlot)
+//@   loop 3 invariant forall q *ast.Symbol :: q.Kind != ast.SymbolLabel && !old(q.NestedScopeSlot.IsValid()) && q.NestedScopeSlot.IsValid() ==>
+//@       nsOf(q) != ast.SlotMustNotBeRenamed && entry(slot)[nsOf(q)] <= q.NestedScopeSlot.GetIndex() && q.NestedScopeSlot.GetIndex() < slotCounts[nsOf(q)]
+//@   ensures callers-counters-untouched: forall c *ast.SlotCounts, k int :: !fresh(c) && 0 <= k && k < 4 ==> c[k] == old(c[k])
+//@   loop 1 invariant forall c *ast.SlotCounts, k int :: !fresh(c) && 0 <= k && k < 4 ==> c[k] == old(c[k])
+//@   loop 2 invariant forall c *ast.SlotCounts, k int :: !fresh(c) && 0 <= k && k < 4 ==> c[k] == old(c[k])
+//@   loop 3 invariant forall c *ast.SlotCounts, k int :: !fresh(c) && 0 <= k && k < 4 ==> c[k] == old(c[k])
